@@ -46,6 +46,18 @@ CLAIMED = {
    design_ref="DESIGN.md 3.5, 4.4, 5 (C07)",
    note="Trusted: the specification table in sa/rules/merge.py (spec()), the two small interpreters over the C IR / Python ast; an unrecognised construct aborts the run (exit 2) instead of being skipped.",
    technique="finite-domain conditional constant propagation (decision-table extraction) + sibling/spec table comparison"),
+ "C10": dict(
+   category="model_checking",
+   text="Exhaustive decision-table extraction for difference/union/intersection over the finite abstract space (None-ness and kind of both operands, cursor liveness, comparison sign): the action of each C entry point through set_operation/copyRemaining (22 translation units) and of each Python function is computed from the code and compared with the table written from Interfaces.py (which key is emitted with which value, which cursors advance, kind of the fresh result, None short-circuits). Structural rules add: operator slots and dunder methods reach the documented function with operands in order, in-place -=/^= guard the aliased operand, set-operation code mutates only objects it created, arbitrary iterables are sorted and de-duplicated. Necessary conditions of the mathematical result on every operand pair; equality on concrete operands additionally needs sorted, duplicate-free cursors (C01).",
+   design_ref="DESIGN.md 3.5, 4.4, 5 (C10)",
+   note="Trusted: spec() in sa/rules/setops.py, the interpreters over C IR / Python ast (unknown construct = exit 2), classification of operand kinds by initSetIteration/_SetIteration.",
+   technique="finite-domain constant propagation (decision tables) + call-graph wiring and freshness checks"),
+ "C12": dict(
+   category="model_checking",
+   text="Exhaustive decision-table extraction for weightedUnion/weightedIntersection with symbolic weights and values: the emitted value of every situation is computed as a polynomial over (v1,v2,w1,w2) through the MERGE/MERGE_WEIGHT/MERGE_DEFAULT macro expansions of every numeric value family in C (incl. the operand swap; a narrowing conversion of a weight is made visible) and through the functions _module_builder wires per value datatype in Python, and compared - with result kind, advanced cursors and returned weight - to the table written from Interfaces.py. Decides the documented formula and conventions for all operand kinds and weights as an algebraic identity; overflow and float rounding of concrete arithmetic are not decided.",
+   design_ref="DESIGN.md 3.5, 4.4, 5 (C12)",
+   note="Trusted: spec() and the polynomial normaliser, the interpreters (unknown construct = exit 2).",
+   technique="finite-domain constant propagation with polynomial (ring) normalisation of value expressions"),
 }
 
 NA_PENDING = "check not built yet (engine under construction); see DESIGN.md section 11"
